@@ -171,12 +171,13 @@ def run_case(doc: dict) -> dict:
             for k, vname, place in plans:
                 pbox: dict = {}
 
-                def factory(rt, _k=k, _v=vname, _pl=place, _b=pbox):
+                def factory(rt, _k=k, _v=vname, _pl=place, _b=pbox, _m=mode):
                     if _v == "sync":
                         bad = SyncProc(rt, "bad", fail_at=_k)
                     else:
                         bad = AsyncProc(rt, "bad", fail_at=_k, yield_seed=doc["plan_seed"] if _v == "async_after" else None, fail_phase="after" if _v == "async_after" else "before")
-                    good = AsyncProc(rt, "good") if (isinstance(_k, int) and _k % 2) else SyncProc(rt, "good")
+                    # (every other async recorder genuinely SUSPENDS while it handles an event: it must still see every event, in order)
+                    good = AsyncProc(rt, "good", yield_seed=(doc["plan_seed"] ^ 0x5A5A) if (_m == "async" and _k % 4 == 1) else None) if (isinstance(_k, int) and _k % 2) else SyncProc(rt, "good")
                     bad, good = with_identity(bad, ident), with_identity(good, ident)
                     _b["bad"], _b["good"] = bad, good
                     return [bad, good] if _pl == "first" else [good, bad]
